@@ -1,10 +1,188 @@
-(* C05  Directive order and file layout do not matter.  (theorems under development; see Proofs/OrderProofs.v) *)
+(* C05  Directive order and file layout do not matter.
+   Theorem statements only; proofs in Proofs/OrderProofs.v (generic fold lemma, builder,
+   ParseDirective), Proofs/OrderSMap.v, Proofs/OrderStages.v (the pipeline stages),
+   Proofs/OrderReport.v (Query.Into), Proofs/OrderRender.v (the renderer), Proofs/OrderCmd.v
+   (commands), Proofs/OrderLayout.v (include loader), Proofs/OrderWitness.v, Proofs/CheckPerm.v.
+
+   Vocabulary.
+   - [Permutation sds1 sds2]: the same syntax-level directives in another order (what reordering
+     a file, or distributing it over included files, does to the list the loader produces:
+     see C05_layout).
+   - [sd_syntactic sds]: what the parser guarantees for account names (no colon or NUL inside a
+     segment), as in Properties/C04.v; without it two different accounts could have the same
+     name and the checker's position map would depend on the order.
+   - [ceq R x y]: both commands fail, or both succeed with R-related results.  The error text is
+     NOT invariant: knut reports the first offender in arrival order (C05_error_depends_on_order).
+   - [day_equiv x y]: same date, the five per-kind lists are permutations of each other. *)
 From Coq Require Import ZArith QArith List Bool Permutation.
-From Knut Require Import Model.Ledger Model.Journal Spec.LedgerSpec Proofs.LedgerProofs.
+From Knut Require Import Model.Str Model.Dec Model.Date Model.Account Model.Ledger Model.Journal Model.Check
+     Model.Pipeline Model.Cli Spec.LedgerSpec Spec.WellformedSpec
+     Proofs.LedgerProofs Proofs.CheckMain Proofs.CheckPerm Proofs.OrderProofs Proofs.OrderStages Proofs.OrderCmd.
 Import ListNotations.
+
+(* ------------------------------------------------------------------ 1. the verdict *)
+
+(* `knut check` accepts a journal iff it accepts every reordering of it -- for the checker of
+   the pinned code ([check_cmd false]), the lenient one ([check_cmd true]) and the repaired one
+   ([check_cmd_fixed], = what /repo does now). *)
+Theorem C05_verdict_perm : forall sds1 sds2,
+  Permutation sds1 sds2 -> sd_syntactic sds1 ->
+  (forall l, check_cmd l sds1 = COk tt <-> check_cmd l sds2 = COk tt) /\
+  (check_cmd_fixed sds1 = COk tt <-> check_cmd_fixed sds2 = COk tt) /\
+  (forall r, check_cmd_current r sds1 = COk tt <-> check_cmd_current r sds2 = COk tt).
+Proof. exact verdict_perm. Qed.
+Print Assumptions C05_verdict_perm.
+
+(* the specification side (C04's well-formedness does not look at the order) *)
+Theorem C05_wellformed_perm : forall ds1 ds2, Permutation ds1 ds2 -> (wellformed ds1 <-> wellformed ds2).
+Proof. exact wellformed_perm. Qed.
+Print Assumptions C05_wellformed_perm.
+
+Theorem C05_check_model_perm : forall ds1 ds2,
+  Permutation ds1 ds2 -> syntactic ds1 -> (check_model ds1 = VOk <-> check_model ds2 = VOk).
+Proof. exact check_perm. Qed.
+Print Assumptions C05_check_model_perm.
+
+(* lib/model converts directive by directive: permuted in, permuted out (or both rejected) *)
+Theorem C05_parse_perm : forall l1 l2,
+  Permutation l1 l2 -> meq (@Permutation directive) (parse_directives l1) (parse_directives l2).
+Proof. exact parse_directives_perm. Qed.
+Print Assumptions C05_parse_perm.
+
+(* ------------------------------------------------------------------ 2. the builder *)
+
+(* same days (dates), each day's lists permuted, same period *)
+Theorem C05_build_perm : forall ds1 ds2,
+  Permutation ds1 ds2 ->
+  Forall2 day_equiv (b_days (builder_of ds1)) (b_days (builder_of ds2)) /\
+  b_min (builder_of ds1) = b_min (builder_of ds2) /\
+  b_max (builder_of ds1) = b_max (builder_of ds2).
+Proof. exact build_perm. Qed.
+Print Assumptions C05_build_perm.
 
 (* the builder loses and duplicates nothing, whatever the order of arrival *)
 Theorem C05_builder_census : forall dl,
   Permutation (days_postings (b_days (builder_of dl))) (flat_postings dl).
 Proof. exact builder_of_perm. Qed.
 Print Assumptions C05_builder_census.
+
+(* ------------------------------------------------------------------ 3. knut balance *)
+From Knut Require Import Model.Price Model.Table Model.Report Proofs.OrderPipeline Proofs.OrderReport Proofs.OrderRender.
+
+(* For every balance configuration (window, interval, --last, --diff, --close, valuation, sort
+   order, mappings, remap, account/commodity filters, --show-commodities, either checker): the
+   report of a journal and of any permutation of it are the same table -- cell for cell, hence
+   the same CSV and text bytes -- or both commands fail.  Hypotheses: parser-shaped account
+   names, and the property's exclusion (two price declarations of one day for the same unordered
+   commodity pair are the same declaration).  The error of a failing run legitimately differs
+   (C05_error_depends_on_order), so for failing runs no more than "both fail" holds. *)
+Theorem C05_balance_perm : forall cfg sds1 sds2,
+  Permutation sds1 sds2 -> sd_syntactic sds1 -> no_conflicting_prices sds1 ->
+  ceq eq (balance_table cfg sds1) (balance_table cfg sds2).
+Proof. exact balance_table_perm. Qed.
+Print Assumptions C05_balance_perm.
+
+Theorem C05_balance_bytes_perm : forall cfg sds1 sds2,
+  Permutation sds1 sds2 -> sd_syntactic sds1 -> no_conflicting_prices sds1 ->
+  ceq eq (balance_csv cfg sds1) (balance_csv cfg sds2) /\
+  forall tc, ceq eq (balance_text cfg tc sds1) (balance_text cfg tc sds2).
+Proof. exact balance_bytes_perm. Qed.
+Print Assumptions C05_balance_bytes_perm.
+
+(* the steps.  (a) the pipeline in front of the report -- ParseDirective incl. accrual expansion,
+   the builder, --close's extra days, the checker, ComputePrices, Valuate, Filter, CloseAccounts
+   -- fails on both inputs or hands Query.Into the same partition and day lists that agree day by
+   day in date, normalized prices and, up to order, in their transactions (valued postings, value
+   adjustments and closing transactions: the same multiset) *)
+Theorem C05_balance_days_perm : forall cfg sds1 sds2,
+  Permutation sds1 sds2 -> sd_syntactic sds1 -> no_conflicting_prices sds1 ->
+  ceq (fun a b => Forall2 DIok (fst a) (fst b) /\ snd a = snd b) (balance_days cfg sds1) (balance_days cfg sds2).
+Proof. exact balance_days_perm. Qed.
+Print Assumptions C05_balance_days_perm.
+
+(* (b) Query.Into: the report trees have the same shape and per node the same bindings
+   (date, commodity) -> amount; a node's amounts list is in first-insertion order, so the trees
+   are equal only up to the order of these lists ([report_eq]) *)
+Theorem C05_balance_report_perm : forall cfg sds1 sds2,
+  Permutation sds1 sds2 -> sd_syntactic sds1 -> no_conflicting_prices sds1 ->
+  ceq (fun a b => report_eq (fst a) (fst b) /\ snd a = snd b) (balance_report cfg sds1) (balance_report cfg sds2).
+Proof. exact balance_report_perm. Qed.
+Print Assumptions C05_balance_report_perm.
+
+(* (c) the renderer looks amounts up by key, sorts the commodity column and sums with the
+   commutative and associative Dec.add: it does not see that order *)
+Theorem C05_render_order_blind : forall cfg r r' dates,
+  report_eq r r' -> render_report cfg r dates = render_report cfg r' dates.
+Proof. exact render_report_eq. Qed.
+Print Assumptions C05_render_order_blind.
+
+(* [balance_days] is Cli.balance_report without its last stage *)
+Theorem C05_balance_report_is_days_then_query : forall cfg ds,
+  balance_report cfg ds =
+  cbind (balance_days cfg ds) (fun dp =>
+  cbind (run_stage (query_proc (balance_query cfg (snd dp)) report_insert) new_report (fst dp)) (fun r6 =>
+  COk (fst r6, snd dp))).
+Proof. exact balance_report_days. Qed.
+Print Assumptions C05_balance_report_is_days_then_query.
+
+(* the generic lemma behind every stage: a monadic fold whose steps commute pairwise (up to
+   "both fail or related states") gives equivalent results on permuted lists *)
+Theorem C05_foldM_perm : forall (S A : Type) (R : S -> S -> Prop) (f : S -> A -> presult S) (P : A -> Prop),
+  (forall a b c, R a b -> R b c -> R a c) ->
+  (forall s s' a, P a -> R s s' -> req R (f s a) (f s' a)) ->
+  (forall s a b, P a -> P b -> R s s ->
+     req R (rbind (f s a) (fun s1 => f s1 b)) (rbind (f s b) (fun s1 => f s1 a))) ->
+  forall l1 l2, Permutation l1 l2 -> Forall P l1 -> forall s s', R s s -> R s s' ->
+  req R (fold_res f s l1) (fold_res f s' l2).
+Proof. exact @fold_res_perm. Qed.
+Print Assumptions C05_foldM_perm.
+
+(* ------------------------------------------------------------------ 4. knut print *)
+
+(* both fail, or the two texts are journal.Print of day lists with the same dates and, per day
+   and kind, the same multiset of directives *)
+Theorem C05_print_equiv : forall l sds1 sds2,
+  Permutation sds1 sds2 -> sd_syntactic sds1 -> ceq print_equiv (print_cmd l sds1) (print_cmd l sds2).
+Proof. exact print_cmd_perm. Qed.
+Print Assumptions C05_print_equiv.
+
+(* ------------------------------------------------------------------ 5. file layout *)
+From Knut Require Import Model.Loader Proofs.LoaderProofs Proofs.OrderLayout.
+
+(* whatever the include tree looks like (depth, fan-out, relative paths, a file included more
+   than once): a successful load returns, up to order, the directives of the visited files,
+   each file as often as it is visited *)
+Theorem C05_layout : forall fs root fuel ds,
+  LoaderM.load fuel fs root = LOk ds ->
+  exists vs, visits fs root vs /\ Permutation ds (flat_map (file_directives fs) vs).
+Proof. exact load_layout. Qed.
+Print Assumptions C05_layout.
+
+
+(* ------------------------------------------------------------------ witnesses *)
+From Knut Require Import Proofs.OrderWitness.
+
+(* the hypotheses are satisfiable: a journal with three transactions on one day (two
+   commodities), two prices, an assertion; a permutation of it; for a valued, closed, monthly
+   configuration and for a plain one the two tables are equal (vm_compute) *)
+Example C05_example :
+  Permutation w_journal w_permuted /\ sd_syntactic w_journal /\ no_conflicting_prices w_journal /\
+  balance_table w_cfg w_journal = balance_table w_cfg w_permuted /\
+  balance_table w_cfg_plain w_journal = balance_table w_cfg_plain w_permuted /\
+  (exists t, balance_table w_cfg w_journal = COk t) /\
+  check_cmd_fixed w_journal = COk tt /\ check_cmd_fixed w_permuted = COk tt.
+Proof. exact (conj w_perm (conj w_syntactic (conj w_prices w_tables_equal))). Qed.
+
+(* the error of a rejected journal is not invariant: with two failing assertions on one day,
+   knut reports the one that arrived first (kinds "assertion" vs "notopen") *)
+Example C05_error_depends_on_order :
+  Permutation (w_journal ++ [w_bad1; w_bad2]) (w_journal ++ [w_bad2; w_bad1]) /\
+  sd_syntactic (w_journal ++ [w_bad1; w_bad2]) /\
+  (exists d, check_cmd_fixed (w_journal ++ [w_bad1; w_bad2]) = CErr k_assertion d) /\
+  (exists d, check_cmd_fixed (w_journal ++ [w_bad2; w_bad1]) = CErr k_not_open d).
+Proof. exact w_error_depends_on_order. Qed.
+
+(* a file included along two paths is loaded twice (C05_layout counts visits, not files) *)
+Example C05_layout_diamond : forall d,
+  LoaderM.load (fuel_for (fs_diamond d)) (fs_diamond d) [[97]] = LOk [d; d].
+Proof. exact diamond_loads_twice. Qed.
